@@ -276,11 +276,11 @@ MergeKeepsOnlyAt(D, c1, c2) ==
   /\ m = RMerge(D, c2, c1)
 
 (* Clauses (1) and (4) as predicates on a step of the machine.             *)
-ReadAfterWriteOn(Offs, Vals) ==
-  \A r \in Regions, o \in Offs, v \in Vals :
+ReadAfterWriteOn(Rs, Offs, Vals) ==
+  \A r \in Rs, o \in Offs, v \in Vals :
     Add(r, o, v) /\ ~IsTop(dom, v) => Read(dom, cells'[r], o, v.s) = v
-MergeKeepsOnly ==
-  \A dst \in Regions : Merge(dst, Other(dst)) =>
+MergeKeepsOnlyOn(Rs) ==
+  \A dst \in Rs : Merge(dst, Other(dst)) =>
     /\ MergeKeepsOnlyAt(dom, cells[dst], cells[Other(dst)])
     /\ SubRegion(cells'[dst], RMerge(dom, cells[Other(dst)], cells[dst]))
 =============================================================================
